@@ -73,6 +73,12 @@ pub enum BOp {
     /// the caller reconfigures the long-lived engine (`set_config`); fresh engines are built with the
     /// configuration in force at the time of the query
     SetConfig { strategy: u8, max_solutions: usize, memo: bool, max_depth: Option<usize> },
+    /// the caller sets one of its facts to null (C10 only: its query-level clause compares the facts before
+    /// and after and needs no reference semantics for null)
+    SetFactNull(u8),
+    /// `query_aggregate("count(?x) WHERE <goal>")` — or, malformed, `… WHERE ((` — on the long-lived engine
+    /// (C11 only); the answer is compared with a fresh engine's, and it is one more query "asked first"
+    QueryAggregate(u8, bool),
 }
 
 #[derive(Clone, Debug, Serialize, Deserialize, PartialEq)]
@@ -86,6 +92,9 @@ pub enum FrameOp {
     /// `set("k2.x", v)`: a FLAT key that merely looks like a path below another key
     SetDotted(u8, i64),
     RemoveDotted(u8),
+    /// `set(k, v)` with a value of another JSON kind — null, false, zero, empty string / array / object:
+    /// the values an implementation might be tempted to use as its own "absent" marker
+    SetKind(u8, u8),
 }
 
 #[derive(Clone, Debug, Serialize, Deserialize)]
@@ -404,6 +413,19 @@ struct QueryOut {
 const SEARCH_STEP_BUDGET: u64 = 150_000;
 const BUDGET: &str = "\u{0}search-step-budget-exhausted";
 
+/// `query_aggregate` under the same step budget; None = budget exhausted (run abandoned)
+fn run_aggregate(engine: &mut BackwardEngine, text: &str, facts: &mut Facts) -> Option<Result<String, String>> {
+    rust_rule_engine::verif_hooks::set_step(Some(Box::new(|_site| budget::tick())));
+    let r = budget::with_budget(SEARCH_STEP_BUDGET, || engine.query_aggregate(text, facts));
+    rust_rule_engine::verif_hooks::set_step(None);
+    match r {
+        Ok(Ok(v)) => Some(Ok(format!("{v:?}"))),
+        Ok(Err(e)) => Some(Err(e.to_string())),
+        Err(p) if p.is::<budget::StepBudgetExceeded>() => None,
+        Err(p) => Some(Err(format!("panicked: {}", panic_text(&p)))),
+    }
+}
+
 fn run_query(engine: &mut BackwardEngine, goal: &str, facts: &mut Facts, rete: &Option<Arc<Mutex<IncrementalEngine>>>) -> Result<QueryOut, String> {
     let depth_before = facts.verif_undo_depth();
     rust_rule_engine::verif_hooks::set_step(Some(Box::new(|_site| budget::tick())));
@@ -571,6 +593,43 @@ fn run_search(
                 }
                 engine.set_config(mkcfg(max_depth, strategy, max_solutions, memo));
             }
+            BOp::SetFactNull(f) => {
+                if prop == "C10" {
+                    facts.set(&fkey(*f), Value::Null);
+                    obs.count("probe.caller_set_a_fact_to_null");
+                }
+            }
+            BOp::QueryAggregate(g, malformed) => {
+                if prop != "C11" || goals.is_empty() {
+                    continue;
+                }
+                let goal = &goals[*g as usize % goals.len()];
+                let text = if *malformed { "count(?x) WHERE ((".to_string() } else { format!("count(?x) WHERE {}", goal_text(types, goal)) };
+                let before = snapshot(&facts);
+                let mine = match run_aggregate(&mut engine, &text, &mut facts) {
+                    Some(r) => r,
+                    None => {
+                        obs.count("probe.run_abandoned_search_step_budget_exhausted");
+                        return Ok(());
+                    }
+                };
+                let mut e2 = BackwardEngine::with_config(build_kb(types, rules), mkcfg(max_depth, strategy, max_solutions, memo));
+                let mut f2 = facts_from(&before);
+                let fresh = match run_aggregate(&mut e2, &text, &mut f2) {
+                    Some(r) => r,
+                    None => {
+                        obs.count("probe.run_abandoned_search_step_budget_exhausted");
+                        return Ok(());
+                    }
+                };
+                obs.count(if mine.is_err() { "probe.aggregate_query_returned_an_error" } else { "probe.aggregate_query_answered" });
+                if mine.is_ok() != fresh.is_ok() || (mine.is_ok() && mine != fresh) {
+                    let v = Violation::new("C11", "history.independent", site, "aggregate-answer-differs-from-fresh-engine", format!("`{text}`: the long-lived engine answers {mine:?}, a freshly built engine on a copy of the same facts {fresh:?}"), step);
+                    if !obs.is_known(&v) {
+                        return Err(v);
+                    }
+                }
+            }
             BOp::SetFact(f, l) => {
                 facts.set(&fkey(*f), lit_value(types[*f as usize % NF], *l));
                 obs.count("probe.caller_changed_a_fact");
@@ -722,6 +781,19 @@ fn run_search(
     Ok(())
 }
 
+/// values of every JSON kind that could be mistaken for "nothing there"
+fn kind_value(kind: u8) -> Value {
+    match kind % 8 {
+        0 | 1 => Value::Null,
+        2 => Value::Boolean(false),
+        3 => Value::Integer(0),
+        4 => Value::Number(0.0),
+        5 => Value::String(String::new()),
+        6 => Value::Array(vec![]),
+        _ => Value::Object(HashMap::new()),
+    }
+}
+
 fn run_frames(ops: &[FrameOp], obs: &mut Obs) -> Result<(), Violation> {
     let site = "Facts (undo frames)";
     let facts = Facts::new();
@@ -756,6 +828,14 @@ fn run_frames(ops: &[FrameOp], obs: &mut Obs) -> Result<(), Violation> {
             FrameOp::Set(k, v) => {
                 facts.set(&key(*k), Value::Integer(*v));
                 model.insert(key(*k), Value::Integer(*v));
+            }
+            FrameOp::SetKind(k, kind) => {
+                let v = kind_value(*kind);
+                if v == Value::Null {
+                    obs.count("probe.null_value_written");
+                }
+                facts.set(&key(*k), v.clone());
+                model.insert(key(*k), v);
             }
             FrameOp::SetNested(k, v) => {
                 let path = format!("{}.a", key(*k));
@@ -884,7 +964,7 @@ fn gen_search(rng: &mut Rng, hash_seed: u64, with_negation: bool) -> BwdTrace {
     let nops = 1 + rng.usize(6);
     let mut ops = Vec::new();
     for _ in 0..nops {
-        let w = rng.weighted(&[55, 20, 5, 5, if attach_rete { 8 } else { 0 }, if attach_rete { 6 } else { 0 }, if with_negation { 8 } else { 0 }, 6]);
+        let w = rng.weighted(&[55, 20, 5, 5, if attach_rete { 8 } else { 0 }, if attach_rete { 6 } else { 0 }, if with_negation { 8 } else { 0 }, 6, 5, if with_negation { 8 } else { 0 }]);
         ops.push(match w {
             0 => {
                 if with_negation && rng.chance(1, 4) {
@@ -899,6 +979,8 @@ fn gen_search(rng: &mut Rng, hash_seed: u64, with_negation: bool) -> BwdTrace {
             4 => BOp::EngineInsert(rng.below(3) as u8),
             5 => BOp::EngineRetract(rng.below(4) as u8),
             6 => BOp::Retype(rng.below(NF as u64) as u8),
+            8 => BOp::SetFactNull(rng.below(NF as u64) as u8),
+            9 => BOp::QueryAggregate(rng.below(3) as u8, rng.chance(1, 3)),
             _ => BOp::SetConfig { strategy: *rng.pick(&[0u8, 0, 1, 2]), max_solutions: *rng.pick(&[1usize, 1, 3]), memo: rng.chance(2, 3), max_depth: if rng.chance(1, 3) { Some(*rng.pick(&[0usize, 1, 2, 3, 4])) } else { None } },
         });
     }
@@ -963,7 +1045,7 @@ impl World for BwdWorld {
         if prop == "C10" && rng.chance(1, 3) {
             let n = 2 + rng.usize(9);
             let ops = (0..n)
-                .map(|_| match rng.weighted(&[22, 12, 16, 22, 12, 10, 10, 4]) {
+                .map(|_| match rng.weighted(&[22, 12, 16, 18, 12, 10, 10, 4, 10]) {
                     0 => FrameOp::Begin,
                     1 => FrameOp::Commit,
                     2 => FrameOp::Rollback,
@@ -971,7 +1053,8 @@ impl World for BwdWorld {
                     4 => FrameOp::SetNested(rng.below(3) as u8, rng.range(1, 9)),
                     5 => FrameOp::Remove(rng.below(3) as u8),
                     6 => FrameOp::SetDotted(rng.below(3) as u8, rng.range(1, 9)),
-                    _ => FrameOp::RemoveDotted(rng.below(3) as u8),
+                    7 => FrameOp::RemoveDotted(rng.below(3) as u8),
+                    _ => FrameOp::SetKind(rng.below(3) as u8, rng.below(8) as u8),
                 })
                 .collect();
             return BwdTrace::Frames { hash_seed, ops };
